@@ -93,9 +93,13 @@ def geom_specs(draw, ndims, origin=True, aniso=True):
 
 
 @st.composite
-def field_lists(draw, min_size=1, max_size=6, pool=None, required=()):
+def field_lists(draw, min_size=1, max_size=6, pool=None, required=(), many=False):
     pool = list(pool or FIELD_POOL)
     n = draw(st.integers(min_size, max_size))
+    if many and draw(st.integers(0, 2 ** 16)) % 12 == 0:
+        # a long field list (header tables many columns wide, component offsets far into a FAB)
+        n = draw(st.integers(12, 45))
+        pool = pool + [f"aux_{i:02d}" for i in range(40)]
     names = list(required)
     rest = [p for p in pool if p not in names]
     if len(names) < n:
@@ -111,20 +115,28 @@ def field_lists(draw, min_size=1, max_size=6, pool=None, required=()):
 @st.composite
 def payloads(draw, kinds=("coded", "random", "special")):
     kind = draw(st.sampled_from(list(kinds)))
-    return dict(kind=kind, seed=0 if kind == "coded" else draw(st.integers(0, 2 ** 16)))
+    out = dict(kind=kind, seed=0 if kind == "coded" else draw(st.integers(0, 2 ** 16)))
+    if draw(st.integers(0, 2 ** 16)) % 4 == 0:
+        # about a third of the boxes hold exactly 0.0 everywhere, in all components or in one
+        out["zero_boxes"] = draw(st.integers(1, 2 ** 16))
+    return out
 
 
 @st.composite
 def plot_specs(draw, ndims=None, min_levels=1, max_levels=3, max_cells=6000, min_fields=1,
                max_fields=6, payload_kinds=("coded", "random", "special"), origin=True,
                aniso=True, fields=None, layouts=("single", "scatter", "nonmono"),
-               force_no_unit=None, field_pool=None, required_fields=(), max_nb0=5, thin=False):
+               force_no_unit=None, field_pool=None, required_fields=(), max_nb0=5, thin=False, many=False):
     mesh = draw(mesh_specs(ndims=ndims, min_levels=min_levels, max_levels=max_levels,
                            max_cells=max_cells, layouts=layouts, force_no_unit=force_no_unit,
                            max_nb0=max_nb0, thin=thin))
     geom = draw(geom_specs(mesh["ndims"], origin=origin, aniso=aniso))
     flds = fields if fields is not None else draw(field_lists(min_fields, max_fields, pool=field_pool,
-                                                              required=required_fields))
+                                                              required=required_fields, many=many))
+    if len(flds) > 12:
+        # keep the byte count of a many-field plotfile in line with the others
+        while int(np.prod(mesh["nb0"])) * mesh["bf"] ** mesh["ndims"] * len(flds) > 4 * max_cells and max(mesh["nb0"]) > 1:
+            mesh["nb0"][int(np.argmax(mesh["nb0"]))] -= 1
     return dict(mesh=mesh, geom=geom, fields=list(flds),
                 time=draw(st.sampled_from(TIMES)), step=draw(st.sampled_from([7, 0, 70100])),
                 payload=draw(payloads(payload_kinds)),
@@ -326,7 +338,7 @@ class Plot:
             for d in range(self.ndims):
                 for side, face in ((0, lo[d]), (1, hi[d] + 1)):
                     k = (j * 2654435761 + l * 97 + d * 7 + (face & 0xFFFF) * 131) % 3 - 1
-                    if k:
+                    if k and out[d][side] != 0.0:      # an exact zero stays zero (its "ulp" would be a denormal, which no writer produces)
                         out[d][side] = float(np.nextafter(out[d][side], np.inf if k > 0 else -np.inf))
         return out
 
@@ -349,6 +361,15 @@ class Plot:
                 arr = PAYLOADS[self.payload["kind"]](self, l, lo, hi)
             arr = np.asarray(arr, dtype="<f8")
             assert arr.shape == self.box_shape(l, b) + (self.nf,), (arr.shape, self.box_shape(l, b), self.nf)
+            zb = self.payload.get("zero_boxes")
+            if zb:
+                r = random.Random(f"{zb}/{l}/{list(lo)}")
+                if r.random() < 0.35:
+                    arr = arr.copy()
+                    if r.random() < 0.5:
+                        arr[...] = 0.0
+                    else:
+                        arr[..., r.randrange(self.nf)] = 0.0
             self._cache[key] = arr
         return self._cache[key]
 
@@ -399,6 +420,10 @@ class Plot:
                 break
         if len(set(self.n0)) > 1:
             lab.append("non-cubic")
+        if self.nf > 12:
+            lab.append("many-fields(>12)")
+        if self.payload.get("zero_boxes"):
+            lab.append("all-zero-boxes")
         if any(hi[d] == lo[d] for lv in self.levels for lo, hi in lv["boxes"] for d in range(nd)):
             lab.append("one-cell-thick-box")
         if max(len(lv["boxes"]) for lv in self.levels) > 1:
